@@ -177,6 +177,13 @@ def rule_globalstate(ctx):
             if isinstance(d, MUTABLE_DEFAULT) or (isinstance(d, ast.Call) and not (isinstance(d.func, ast.Name) and d.func.id in ("float", "int", "str", "bool", "tuple", "frozenset"))):
                 probs.append("mutable default argument %s=%s" % (p, ast.unparse(d)))
                 node = d
+        for dec in getattr(f.node, "decorator_list", []):
+            # functools.lru_cache / functools.cache / a hand-written memoiser: the function's results are kept in hidden
+            # module-level state; the same *object* is handed to every later caller
+            txt = ast.unparse(dec)
+            if any(k in txt for k in ("lru_cache", "functools.cache", "memoize", "memoise")) or txt in ("cache",):
+                probs.append("memoising decorator @%s: results are shared between calls (a caller that modifies the returned object changes what every later call receives)" % txt)
+                node = dec
         yield ob("C15.GLOBALSTATE", f, "%s:state" % f.qual, not probs, "; ".join(probs) if probs else "no global declaration, no write through a module-level object, no mutable default", node=node)
     # module level: tables are only assigned once, no module-level statement mutates them after creation
     for m in ctx.program.modules.values():
